@@ -111,7 +111,7 @@ def main(chk):
     chk.add(run_jobs(jobs))
     hs = [k_sd_nonneg('SD', 1, 3), k_sd_nonneg('SD', 2, 4), k_sd_nonneg('MAD', 2, 4)]
     if not q: hs += [k_sd_nonneg('SD', 2, 5), k_sd_nonneg('SD', 3, 5), k_sd_nonneg('MAD', 3, 6)]
-    chk.add(kani.run_family_set('C09', hs, jobs=6, timeout_s=400 if q else 3600))
+    chk.add(kani.run_family_set('C09', hs, jobs=6, timeout_s=400 if q else 1200))
     chk.assumptions += ['f64 arithmetic modelled as exact real arithmetic in engine R (the cancellation that could drive a float variance negative is engine K\'s part)',
                         'inputs any sign, |x| <= 1e12; bars with low <= high, other fields independent; multiplier in [0, 1000]']
     chk.notes += ['SD >= 0 / not NaN under floating-point cancellation for full-range inputs beyond the Kani bound']
